@@ -325,7 +325,7 @@ Print Assumptions C04_array_date_rules_refuted.
 
 (* array of flattened objects *)
 Theorem C04_array_flatten_refuted :
-  not_read_back (EE [] None []) (plain [97] (PArray None None (TObject true None))).
+  not_read_back (EE [] None []) (plain [97] (PArray None None (TObject [66;97;114] true None))).
 Proof. eexists. split; [vm_compute; reflexivity|]. vm_compute. discriminate. Qed.
 Print Assumptions C04_array_flatten_refuted.
 
@@ -341,7 +341,7 @@ Print Assumptions C04_timestamp_bounds_not_written.
 
 (* object rules — minProperties / maxProperties compile to an empty constraint and are not read back *)
 Theorem C04_object_rules_refuted :
-  not_read_back (EE [] None []) (plain [97] (PSingle (TObject false (Some (OBR (Some 1) None))))).
+  not_read_back (EE [] None []) (plain [97] (PSingle (TObject [66;97;114] false (Some (OBR (Some 1) None))))).
 Proof. eexists. split; [vm_compute; reflexivity|]. vm_compute. discriminate. Qed.
 Print Assumptions C04_object_rules_refuted.
 
@@ -383,8 +383,8 @@ Theorem C04_reader_table_agrees :
   /\ forallb (fun a => ostr_eqb (model_wellknown (fst a)) (snd a)) RulesGen.reader_wellknown_literals = true
   /\ RulesGen.reader_id62_published = model_id62_reads_as_key
   (* and the writer's side of the same annotations *)
-  /\ RulesGen.writer_object_rules_empty = emits_typeless (TObject false (Some (OBR (Some 1) (Some 2))))
-  /\ RulesGen.writer_oneof_rules_empty = emits_typeless (TOneof true None).
+  /\ RulesGen.writer_object_rules_empty = emits_typeless (TObject [66;97;114] false (Some (OBR (Some 1) (Some 2))))
+  /\ RulesGen.writer_oneof_rules_empty = emits_typeless (TOneof [67] true None).
 Proof.
   exact (conj reader_int_arms_agree (conj reader_int_list_arms_agree
         (conj (proj1 reader_wellknown_agree) (conj (proj1 reader_id62_agree)
